@@ -513,10 +513,60 @@ func loopOrdinal(fn *ssa.Function, h *ssa.BasicBlock) string {
 }
 
 func isRangeLoop(h *ssa.BasicBlock) bool {
-	if strings.HasPrefix(h.Comment, "rangeindex.loop") || strings.HasPrefix(h.Comment, "rangeiter.loop") || strings.HasPrefix(h.Comment, "rangeint.loop") {
-		return true
+	for _, pre := range []string{"rangeindex.", "rangeint.", "rangeiter."} {
+		if strings.HasPrefix(h.Comment, pre) {
+			return true
+		}
 	}
 	return false
+}
+
+// isCountedLoop: the header tests `i < bound` (or <=, >, >=, !=) where i is a header phi that every latch advances by a
+// non-zero constant and bound is defined outside the loop: the loop is bounded by its counter, whatever the stream does.
+func isCountedLoop(h *ssa.BasicBlock, body map[*ssa.BasicBlock]bool) bool {
+	iff, ok := h.Instrs[len(h.Instrs)-1].(*ssa.If)
+	if !ok {
+		return false
+	}
+	bo, ok := iff.Cond.(*ssa.BinOp)
+	if !ok {
+		return false
+	}
+	switch bo.Op {
+	case token.LSS, token.LEQ, token.GTR, token.GEQ, token.NEQ:
+	default:
+		return false
+	}
+	// one successor leaves the loop
+	if body[h.Succs[0]] == body[h.Succs[1]] {
+		return false
+	}
+	check := func(iv, bound ssa.Value) bool {
+		phi, ok := iv.(*ssa.Phi)
+		if !ok || phi.Block() != h {
+			return false
+		}
+		if in, ok := bound.(ssa.Instruction); ok && body[in.Block()] {
+			if _, isConst := bound.(*ssa.Const); !isConst {
+				return false
+			}
+		}
+		for i, pred := range h.Preds {
+			if !body[pred] {
+				continue
+			}
+			step, ok := phi.Edges[i].(*ssa.BinOp)
+			if !ok || (step.Op != token.ADD && step.Op != token.SUB) || step.X != ssa.Value(phi) {
+				return false
+			}
+			k, ok := core.ConstIntValue(step.Y)
+			if !ok || k == 0 {
+				return false
+			}
+		}
+		return true
+	}
+	return check(bo.X, bo.Y) || check(bo.Y, bo.X)
 }
 
 // dispatcherFailsOnUnknown: following the false edges of all `frame.Type() == K` tests for K not in {FIN, UNKNOWN},
